@@ -15,7 +15,7 @@ func init() {
 		Technique: "table extraction from the source's own dispatch tables (composite-key switches, timing-table literals) compared with a frozen bank state machine + issue-through-ready provenance",
 		Explanation: "Decides on mem/dram: (1) the required-command table equals the bank state machine — closed bank: any column command requires ACTIVATE; open bank: the command itself iff the open row matches, else PRECHARGE; (2) startCommand's transitions: ACTIVATE opens the bank on the command's row, PRECHARGE and auto-precharge column commands close it, plain reads/writes leave it open; " +
 			"(3) getReadyCommand returns a command only when the countdown of the *required* kind is zero, and every command the scheduler path hands to issue derives from getReadyCommand (no path issues a queued command without the timing test); issue applies startCommand and updateTiming to the command it issues on every issuing path; " +
-			"(4) the same-bank timing table has ACT→{RD,WR,RDA,WRA,PRE}, PRE→ACT, RD/WR→PRE and RDA/WRA→ACT entries whose values derive from tRCD, tRAS, tRP, tRTP and tWR respectively; countdowns only ever decrease by one per tick and are raised (never lowered) by updateTiming. (timing-reaches-all-banks) updateAllBankTiming walks the whole flat bank array, from the first entry to len(Entries), and addresses entries only inside that loop.",
+			"(4) the same-bank timing table has ACT→{RD,WR,RDA,WRA,PRE}, PRE→ACT, RD/WR→PRE and RDA/WRA→ACT entries whose values derive from tRCD, tRAS, tRP, tRTP and tWR respectively; countdowns only ever decrease by one per tick and are raised (never lowered) by updateTiming. (timing-reaches-all-banks) updateAllBankTiming walks the whole flat bank array, from the first entry to len(Entries), and addresses entries only inside that loop. (geometry-complete) every Spec.Num* dimension that buildAddressMapping decodes takes part in the capacity of the storage the builder creates.",
 		NotDecided:  "numeric separations on actual command streams; refresh; tFAW arithmetic; data correctness.",
 		Assumptions: []string{"JEDEC-style bank state machine as frozen in the rule"},
 	}, runC22)
@@ -61,6 +61,7 @@ func compositeKeySwitches(fd *ast.FuncDecl) [][]keyedClause {
 }
 
 func runC22(c *Ctx) {
+	geometryCompleteRule(c, "geometry-complete")
 	timingReachesAllBanksRule(c, "timing-reaches-all-banks")
 	p := c.P
 	column := []string{"cmdKindRead", "cmdKindReadPrecharge", "cmdKindWrite", "cmdKindWritePrecharge"}
@@ -561,4 +562,46 @@ func timingReachesAllBanksRule(c *Ctx, rule string) {
 		}
 	}
 	c.Check(why == "", rule, "mem/dram.updateAllBankTiming", p.Decl(f).Pos(), "every bank entry is visited; the per-entry classification selects the applicable gaps", why)
+}
+
+// geometryCompleteRule: the backing storage the builder creates must cover the
+// address space that the address mapping decodes. Every geometry dimension
+// (Spec.Num*) that buildAddressMapping turns into address bits must take part in
+// the capacity computed by resolveStorage; a dimension left out makes the storage
+// smaller than the decoded space, and an in-geometry access panics in the respond
+// stage ("beyond the storage capacity").
+func geometryCompleteRule(c *Ctx, rule string) {
+	p := c.P
+	mapFn := c.fn(rule, "mem/dram", "Builder", "buildAddressMapping")
+	stFn := c.fn(rule, "mem/dram", "Builder", "resolveStorage")
+	if mapFn == nil || stFn == nil {
+		return
+	}
+	dims := func(f *types.Func) map[string]bool {
+		out := map[string]bool{}
+		fn := p.SSAFunc(f)
+		if fn == nil {
+			return out
+		}
+		for _, b := range fn.Blocks {
+			for _, in := range b.Instrs {
+				if v, ok := in.(ssa.Value); ok {
+					if g := FieldOf(v); g != nil && strings.HasPrefix(g.Name(), "Num") && g.Pkg() != nil && strings.HasSuffix(g.Pkg().Path(), "/mem/dram") {
+						out[g.Name()] = true
+					}
+				}
+			}
+		}
+		return out
+	}
+	decoded, sized := dims(mapFn), dims(stFn)
+	var missing []string
+	for d := range decoded {
+		if !sized[d] {
+			missing = append(missing, d)
+		}
+	}
+	sort.Strings(missing)
+	c.Check(len(decoded) >= 5 && len(missing) == 0, rule, "mem/dram.Builder.resolveStorage", p.Decl(stFn).Pos(), "every decoded geometry dimension takes part in the storage capacity",
+		"the storage capacity computed by resolveStorage does not involve "+strings.Join(missing, ", ")+", which buildAddressMapping decodes into address bits: the self-built storage is smaller than the address space of the geometry, and an access to an in-geometry address beyond it panics in the respond stage instead of completing")
 }
